@@ -31,6 +31,7 @@ type HOp struct {
 	Results        *consensus.BlockResults `json:"results,omitempty"` // provider's GetBlockResults answer
 	Block          *consensus.Block        `json:"block,omitempty"`
 	ProviderLatest int64                   `json:"provider_latest,omitempty"`
+	LatestSeq      []int64                 `json:"latest_seq,omitempty"` // latest-*: the provider's answers to consecutive GetLatestHeight requests (the last one repeats); it serves the honest data of whatever height it is asked for
 	Note           string                  `json:"note,omitempty"`
 }
 
@@ -42,17 +43,42 @@ type HCase struct {
 	Roots   map[int64][]byte                  `json:"roots"`
 	Results map[int64]*consensus.BlockResults `json:"honest_results"`
 	Blocks  map[int64]*consensus.Block        `json:"honest_blocks"`
+	Txs     map[int64][][]byte                `json:"honest_txs"`
 }
 
 type histProvider struct {
 	consensus.Backend
-	op *HOp
+	op  *HOp
+	c   *HCase
+	seq []int64
 }
 
-func (p *histProvider) GetTransactions(context.Context, int64) ([][]byte, error) {
+func (p *histProvider) moving() bool { return p.op.LatestSeq != nil }
+
+func (p *histProvider) GetTransactions(_ context.Context, h int64) ([][]byte, error) {
+	if p.moving() {
+		if txs, ok := p.c.Txs[h]; ok {
+			return txs, nil
+		}
+		return nil, consensus.ErrVersionNotFound
+	}
 	return p.op.Txs, nil
 }
-func (p *histProvider) GetBlockResults(context.Context, int64) (*consensus.BlockResults, error) {
+func (p *histProvider) GetBlock(_ context.Context, h int64) (*consensus.Block, error) {
+	if b, ok := p.c.Blocks[h]; ok {
+		cp := *b
+		return &cp, nil
+	}
+	return nil, consensus.ErrVersionNotFound
+}
+func (p *histProvider) GetBlockResults(_ context.Context, h int64) (*consensus.BlockResults, error) {
+	if p.moving() {
+		if rs, ok := p.c.Results[h]; ok {
+			cp := *rs
+			return &cp, nil
+		}
+		return nil, consensus.ErrVersionNotFound
+	}
 	if p.op.Results == nil {
 		return nil, consensus.ErrVersionNotFound
 	}
@@ -60,6 +86,13 @@ func (p *histProvider) GetBlockResults(context.Context, int64) (*consensus.Block
 	return &cp, nil
 }
 func (p *histProvider) GetLatestHeight(context.Context) (int64, error) {
+	if p.moving() {
+		h := p.seq[0]
+		if len(p.seq) > 1 {
+			p.seq = p.seq[1:]
+		}
+		return h, nil
+	}
 	return p.op.ProviderLatest, nil
 }
 
@@ -87,7 +120,7 @@ func runH(c HCase) (res hresult) {
 	}
 	last := lbs[len(lbs)-1].Height
 	lc := must(light.VerifNewClientWithTrustedLightBlocks(lbs))
-	prov := &histProvider{}
+	prov := &histProvider{c: &c}
 	core := stateless.NewCore(prov, lc, stateless.Config{})
 	ctx := context.Background()
 	optLB := func(h int64) string {
@@ -104,6 +137,7 @@ func runH(c HCase) (res hresult) {
 	for i := range c.Ops {
 		op := &c.Ops[i]
 		prov.op = op
+		prov.seq = append([]int64{}, op.LatestSeq...)
 		switch op.Op {
 		case "stateroot":
 			root, err := core.StateRoot(ctx, op.Height)
@@ -195,6 +229,139 @@ func runH(c HCase) (res hresult) {
 			} else {
 				answers = append(answers, "AHeight None")
 			}
+		case "latest-txresults", "latest-txs", "latest-results", "latest-stateroot", "latest-block":
+			ltS := "None"
+			if lt, e := lc.LastTrustedHeight(); e == nil {
+				ltS = "(Some " + zs(lt) + ")"
+			}
+			// what the call is at every height "latest" may resolve to
+			cand := append(append([]int64{}, op.LatestSeq...), last)
+			seenH := map[int64]bool{}
+			var alts []string
+			for _, k := range cand {
+				if seenH[k] {
+					continue
+				}
+				seenH[k] = true
+				txs := c.Txs[k]
+				nrh := "None"
+				if x, ok := at[k+1]; ok {
+					nrh = "(Some " + t.opt(x.LastResultsHash) + ")"
+				}
+				var o string
+				switch op.Op {
+				case "latest-txresults", "latest-results":
+					rs := c.Results[k]
+					if rs == nil {
+						continue
+					}
+					a := absResults(rs)
+					if op.Op == "latest-results" {
+						o = fmt.Sprintf("HBlockResults %s %s %s %s %s", zs(k), optLB(k), zs(last), nrh, a.coq(t, r))
+					} else {
+						r.txRoot(txs)
+						conv := true
+						if meta, e := cmtapi.NewBlockResultsMeta(rs); e == nil {
+							conv = len(meta.TxsResults) == len(txs)
+						}
+						o = fmt.Sprintf("HTxResults %s %s %s %s %s %s %s", zs(k), optLB(k), zs(last), nrh, t.list(txs), a.coq(t, r), coqout.Bool(conv))
+					}
+				case "latest-txs":
+					r.txRoot(txs)
+					o = fmt.Sprintf("HApi %s (ApiGetTransactions %s)", optLB(k), t.list(txs))
+				case "latest-stateroot":
+					r.txRoot(txs)
+					if n := len(txs); n > 0 && !seenDec[string(txs[n-1])] {
+						seenDec[string(txs[n-1])] = true
+						decs = append(decs, "("+t.B(txs[n-1])+", "+absMetaTx(txs[n-1])+")")
+					}
+					o = fmt.Sprintf("HStateRoot %s %s %s %s", zs(k), optLB(k), optLB(k+1), t.list(txs))
+				case "latest-block":
+					b, ok := c.Blocks[k]
+					if !ok {
+						continue
+					}
+					o = fmt.Sprintf("HApi %s (ApiGetBlock %s)", optLB(k), absBlock(b).coq(t, r))
+				}
+				alts = append(alts, "("+zs(k)+", "+o+")")
+			}
+			var seq []string
+			for _, k := range op.LatestSeq {
+				seq = append(seq, zs(k))
+			}
+			ops = append(ops, fmt.Sprintf("HAtLatest %s %s %s", ltS, coqout.List(seq), coqout.List(alts)))
+			var err error
+			one := "everything returned by one call must be bound to ONE verified header: "
+			switch op.Op {
+			case "latest-txresults":
+				var tr *consensus.TransactionsWithResults
+				tr, err = core.GetTransactionsWithResults(ctx, consensus.HeightLatest)
+				if err == nil {
+					found := false
+					for k, txs := range c.Txs {
+						if !eqLists(tr.Transactions, txs) {
+							continue
+						}
+						found = true
+						meta, e := cmtapi.NewBlockResultsMeta(c.Results[k])
+						if e != nil || len(meta.TxsResults) != len(tr.Results) {
+							bad(i, one+"GetTransactionsWithResults(latest) paired the transactions of one block with a different number of results")
+							break
+						}
+						for j, x := range tr.Results {
+							if x.GasUsed != uint64(meta.TxsResults[j].GasUsed) || x.Error.Code != meta.TxsResults[j].Code {
+								bad(i, fmt.Sprintf(one+"GetTransactionsWithResults(latest) returned the transactions of block %d with the results of another block", k))
+								break
+							}
+						}
+					}
+					if !found {
+						bad(i, "GetTransactionsWithResults(latest) returned transactions of no verified block")
+					}
+				}
+			case "latest-txs":
+				var txs [][]byte
+				txs, err = core.GetTransactions(ctx, consensus.HeightLatest)
+				if err == nil {
+					found := false
+					for _, x := range c.Txs {
+						found = found || eqLists(txs, x)
+					}
+					if !found {
+						bad(i, "GetTransactions(latest) returned transactions of no verified block")
+					}
+				}
+			case "latest-results":
+				_, err = core.GetBlockResults(ctx, consensus.HeightLatest)
+			case "latest-block":
+				var b *consensus.Block
+				b, err = core.GetBlock(ctx, consensus.HeightLatest)
+				if err == nil {
+					if hb, ok := c.Blocks[b.Height]; !ok || !absBlock(b).sameBound(absBlock(hb)) {
+						bad(i, "GetBlock(latest) returned a block that is not bound to a verified header")
+					}
+				}
+			case "latest-stateroot":
+				root, e := core.StateRoot(ctx, consensus.HeightLatest)
+				err = e
+				if e == nil {
+					answers = append(answers, "ARoot (SrOk "+t.B(root.Hash[:])+")")
+					if !bytes.Equal(root.Hash[:], c.Roots[int64(root.Version)]) {
+						bad(i, one+"StateRoot(latest) returned the root of one height under the version of another")
+					}
+				} else {
+					answers = append(answers, "ARoot (SrErr "+bindVerdict("core-stateroot", e)+")")
+				}
+			}
+			if op.Op != "latest-stateroot" {
+				kind := map[string]string{"latest-txresults": "core-txresults", "latest-txs": "api-txs", "latest-results": "core-results", "latest-block": "api-block"}[op.Op]
+				answers = append(answers, "AVerdict "+bindVerdict(kind, err))
+			}
+			v := "ok"
+			if err != nil {
+				v = "error"
+			}
+			res.stats = append(res.stats, "answer:"+op.Op+"/"+v)
 		default:
 			panic("unknown op " + op.Op)
 		}
@@ -215,13 +382,13 @@ type hchain struct {
 func mkHChain(r *prng.R, base int64, n int) *hchain {
 	h := &hchain{}
 	appHash, lrh := r.Bytes(32), r.Bytes(32)
-	h.c.Roots, h.c.Results, h.c.Blocks = map[int64][]byte{}, map[int64]*consensus.BlockResults{}, map[int64]*consensus.Block{}
+	h.c.Roots, h.c.Results, h.c.Blocks, h.c.Txs = map[int64][]byte{}, map[int64]*consensus.BlockResults{}, map[int64]*consensus.Block{}, map[int64][][]byte{}
 	for i := 0; i < n; i++ {
 		tp := mkTupleAt(r.Fork(), fmt.Sprintf("hist-%d", i), base+int64(i), appHash, lrh, nil)
 		h.tps = append(h.tps, tp)
 		h.chain = append(h.chain, tp.header)
 		appHash, lrh = tp.root, tp.resultsHash
-		h.c.Roots[tp.height], h.c.Results[tp.height] = tp.root, tp.results
+		h.c.Roots[tp.height], h.c.Results[tp.height], h.c.Txs[tp.height] = tp.root, tp.results, tp.txs
 	}
 	h.c.Chain = h.chain
 	return h
@@ -261,6 +428,29 @@ func genHCases(r *prng.R, rounds int) []HCase {
 			HOp{Op: "stateroot", Height: hc.tps[0].height, Txs: garbage()})
 		hc.honestOnly()
 		c.Blocks = hc.c.Blocks
+		cs = append(cs, c)
+	}
+	// F: queries for HeightLatest while the provider's tip moves WITHIN one call (blocks with the
+	// same number of transactions, so that nothing but the binding distinguishes them)
+	for round := 0; round < 1+rounds/4; round++ {
+		forceNtx = 2 + round%3
+		hc := mkHChain(r.Fork(), []int64{20, 1, 25300000}[round%3], 5)
+		forceNtx = 0
+		c := hc.c
+		c.Name = fmt.Sprintf("moving-tip-%d", round)
+		for _, tp := range hc.tps {
+			c.Blocks[tp.height] = tp.block
+		}
+		L := hc.tps[4].height
+		for _, seq := range [][]int64{{L - 2, L - 1}, {L - 1, L}, {L, L - 1}, {L - 3, L - 1, L}, {L - 2, L - 2}, {L, L + 1}, {L + 1, L}, {0, L}} {
+			for _, k := range []string{"latest-txresults", "latest-txs", "latest-results", "latest-stateroot", "latest-block"} {
+				c.Ops = append(c.Ops, HOp{Op: k, LatestSeq: seq})
+			}
+		}
+		c.Ops = append(c.Ops, HOp{Op: "watch"})
+		for _, k := range []string{"latest-txresults", "latest-txs", "latest-results", "latest-stateroot", "latest-block"} {
+			c.Ops = append(c.Ops, HOp{Op: k, LatestSeq: []int64{L - 2, L - 1}, Note: "watching: latest is the light client's"})
+		}
 		cs = append(cs, c)
 	}
 	// C..E: mixed histories over short chains
@@ -367,7 +557,17 @@ func mainHistory(seed uint64, rounds int, out, replay string) {
 		}
 		w.Add(res.t, res.coq, map[string]any{"case": c})
 		if len(res.violations) > 0 {
-			sum.Violations = append(sum.Violations, map[string]any{"what": res.violations[0], "case": c})
+			// shrink: a single operation that violates on its own, if there is one
+			small, what := c, res.violations[0]
+			for i := range c.Ops {
+				c1 := c
+				c1.Ops = []HOp{c.Ops[i]}
+				if r1 := runH(c1); r1.panicked == "" && len(r1.violations) > 0 {
+					small, what = c1, r1.violations[0]
+					break
+				}
+			}
+			sum.Violations = append(sum.Violations, map[string]any{"what": what, "case": small})
 		}
 	}
 	w.Close()
